@@ -224,7 +224,10 @@ pub fn run(tier: &str, seed: u64, replay: Option<String>) -> i32 {
     }
     // projects printed by the generator (basements, fins, several floors, own glazing library, ...)
     let gen_base = rng.next_u64() % 1_000_000;
-    let gen_dirs: Vec<String> = (0..if thorough { 300 } else { 24 }).map(|k| crate::projgen::dir_rel(gen_base + k)).collect();
+    let mut gen_dirs: Vec<String> = (0..if thorough { 300 } else { 24 }).map(|k| crate::projgen::dir_rel(gen_base + k)).collect();
+    // the self-contained family (converts without the catalogue; even seeds define their window
+    // construction under a catalogue name with other values)
+    gen_dirs.extend((0..6).map(|k| crate::projgen::dir_rel(crate::projgen::SELF_CONTAINED_FROM + k)));
     for (k, p) in gen_dirs.iter().enumerate() {
         for (tool, extra) in [("hulc2model", false), ("hulc2model", true), ("thor", false)] {
             env_jobs.push(json!({"t":"env","project":p,"tool":tool,"use_extra":extra,"fs":[],"rust_log":Value::Null,
